@@ -424,6 +424,69 @@ func runC11(c *core.Ctx) {
 		}
 		cs.Check(cp.MarshalSize() == cp[0].MarshalSize()+s.MarshalSize(), "marshal-size", det)
 	})
+	// SDES members with more chunks than the 5-bit count can announce (hand-built; they cannot be
+	// marshalled): what Validate and CNAME say depends on where a CNAME item is, never on the
+	// number of chunks before it (after seed C11m).
+	chunkCounts := []int{30, 31, 32, 33, 40, 62, 63, 64, 65, 255, 256, 257, 300}
+	c.Section("many-chunks-sdes", uint64(len(chunkCounts))*8*c.N(4, 400), func(cs *core.Case) {
+		r := cs.R
+		n := chunkCounts[cs.Idx%uint64(len(chunkCounts))]
+		pos := []int{-1, 0, 30, 31, 32, n - 1, r.Intn(n), n / 2}[cs.Idx/uint64(len(chunkCounts))%8]
+		if pos >= n {
+			pos = n - 1
+		}
+		s := &rtcp.SourceDescription{}
+		cname := "many-" + gen.TextN(r, r.Intn(9))
+		for i := 0; i < n; i++ {
+			ch := rtcp.SourceDescriptionChunk{Source: r.U32()}
+			for k := r.Intn(3); k > 0; k-- {
+				ch.Items = append(ch.Items, rtcp.SourceDescriptionItem{Type: rtcp.SDESType(2 + r.Intn(7)), Text: gen.TextN(r, r.Intn(6))})
+			}
+			if i == pos {
+				at := r.Intn(len(ch.Items) + 1)
+				ch.Items = append(ch.Items[:at], append([]rtcp.SourceDescriptionItem{{Type: rtcp.SDESCNAME, Text: cname}}, ch.Items[at:]...)...)
+			}
+			s.Chunks = append(s.Chunks, ch)
+		}
+		cp := rtcp.CompoundPacket{&rtcp.ReceiverReport{SSRC: r.U32()}}
+		if r.Bool() {
+			cp = rtcp.CompoundPacket{&rtcp.SenderReport{SSRC: r.U32()}, &rtcp.ReceiverReport{SSRC: r.U32()}}
+		}
+		cp = append(cp, s)
+		if r.Chance(1, 3) {
+			cp = append(cp, &rtcp.Goodbye{Sources: []uint32{r.U32()}})
+		}
+		var verr, cerr error
+		var cn string
+		if pan, v, st := core.Guard(func() { verr = cp.Validate(); cn, cerr = cp.CNAME() }); pan {
+			cs.Fail("panic/Validate", core.W{"chunks": n, "cname_in_chunk": pos, "panic": v, "stack": st})
+			return
+		}
+		cs.Eval(2)
+		cs.Distinct(core.DigestStr("many", fmt.Sprint(n, pos, len(cp)), cname))
+		cs.Count(fmt.Sprintf("many-chunks-sdes/%d", n))
+		det := func() core.W {
+			return core.W{"chunks": n, "cname_in_chunk": pos, "members": len(cp), "validate_error": errStr(verr), "cname": cn, "cname_error": errStr(cerr)}
+		}
+		cs.Check((verr == nil) == (pos >= 0), "validate", det)
+		if pos >= 0 {
+			cs.Check(cerr == nil && cn == cname, "cname", det)
+		}
+		sum := 0
+		for _, m := range cp {
+			sum += m.MarshalSize()
+		}
+		cs.Check(cp.MarshalSize() == sum, "marshal-size", det)
+		if n > 31 {
+			b, merr, mpan := gMarshal(&cp)
+			cs.Eval(1)
+			if mpan != "" {
+				cs.Fail("panic/Marshal", core.W{"chunks": n, "panic": mpan})
+			} else {
+				cs.Check(merr != nil && len(b) == 0, "marshal", det)
+			}
+		}
+	})
 	maxLen := 4
 	if c.Thorough() {
 		maxLen = 7
